@@ -23,8 +23,11 @@ RULE = ('templates: random trees over atoms (5 distinct waveforms), sequences, r
         '1-3 successive updates (values 0..4 on purpose incl. 0 and 1, rarely negative; malformed stream: updates of '
         'non-volatile or unknown names, missing parameters).  Pipelines: none / cleanup / flatten_and_balance(0..3) / '
         'TaborProgram (mode None|SINGLE|ADVANCED, min_seq_len 1..4, max_seq_len 3..8, optional cleanup first).  '
-        'Thorough adds exhaustive enumeration of all templates with <= 3 composite nodes over a reduced alphabet x '
-        'all volatile subsets.  Non-trivial = some repetition count is volatile and some update changes its value.')
+        'Plus a stream of single volatile counts updated with dyadic non-integer values (instantiation raises, update '
+        'rounds) and a make_compatible stream (minimal waveform length 192/384/576, Python oracle on sampled '
+        'play-back).  Thorough adds exhaustive enumeration of all templates with <= 3 composite nodes (4 composite '
+        'nodes over a further reduced alphabet) x all volatile subsets.  Non-trivial = some repetition count is '
+        'volatile and some update changes its value.')
 TRUSTED = [
     'Coq 8.16.1 kernel + vm_compute',
     'sympy: parsing/evaluation of the integer polynomial count expressions and its structural equality (used by the '
@@ -34,8 +37,8 @@ TRUSTED = [
     'waveform sampling/quantisation is not part of this property (all atoms are 192-sample constant waveforms)',
 ]
 ASSUMPTIONS = [
-    'count expressions are integer polynomials (no division: non-integer counts, where update rounds and a fresh '
-    'instantiation raises, are outside the model)',
+    'count expressions are integer polynomials; non-integer parameter values only in the separate rational stream '
+    '(dyadic values; the 1e-6 tolerance of checked_int_cast is outside the model)',
     'counts <= 64 (model bound for unrolling); measurements are modelled as a has-measurement flag only',
     'the instrument upload path (hardware/awgs/tabor.py) is not importable offline and not covered',
 ]
@@ -359,16 +362,14 @@ def gen_frac(rng):
 
 
 def small_templates():
-    """all templates with <= 3 composite nodes over a reduced alphabet (thorough tier)"""
-    exprs = [V_('n'), V_('m'), ['*', V_('n'), V_('m')], ['*', C_(2), V_('n')]]
-    maps = [[['n', V_('m')]], [['n', ['*', C_(2), V_('x')]]], [['m', ['+', V_('n'), C_(1)]]], [['n', C_(2)]]]
-
-    def build(k):
+    """all templates with <= 3 composite nodes over a reduced alphabet, and all templates with exactly 4 composite
+    nodes over a further reduced alphabet (thorough tier)"""
+    def build(k, exprs, maps, atoms):
         if k == 0:
-            yield ['atom', 0]
-            yield ['atom', 1]
+            for a in atoms:
+                yield ['atom', a]
             return
-        for body in build(k - 1):
+        for body in build(k - 1, exprs, maps, atoms):
             for e in exprs:
                 yield ['rep', e, False, body]
             fr = pt_free(body)
@@ -378,11 +379,14 @@ def small_templates():
         for a in range(k):
             b = k - 1 - a
             if a <= b:
-                for x in build(a):
-                    for y in build(b):
+                for x in build(a, exprs, maps, atoms):
+                    for y in build(b, exprs, maps, atoms):
                         yield ['seq', [x, y]]
+    exprs = [V_('n'), V_('m'), ['*', V_('n'), V_('m')], ['*', C_(2), V_('n')]]
+    maps = [[['n', V_('m')]], [['n', ['*', C_(2), V_('x')]]], [['m', ['+', V_('n'), C_(1)]]], [['n', C_(2)]]]
     for k in (1, 2, 3):
-        yield from build(k)
+        yield from build(k, exprs, maps, [0, 1])
+    yield from build(4, [V_('n'), ['*', V_('n'), V_('m')]], [[['n', ['*', C_(2), V_('x')]]], [['m', ['+', V_('n'), C_(1)]]]], [0])
 
 
 def gen_cases(rng, tier, ctx):
@@ -394,6 +398,12 @@ def gen_cases(rng, tier, ctx):
         cases.append(gen_one(rng, 'tabor', rng.choice([2, 3, 3, 4])))
     for i in range(60 if tier == 'quick' else 600):
         cases.append(gen_frac(rng))
+    for i in range(120 if tier == 'quick' else 1500):
+        c = gen_one(rng, 'tree', rng.choice([2, 3, 3]))
+        c['kind'] = 'compat'
+        del c['pl']
+        c['min_len'] = rng.choice([192, 384, 384, 576])
+        cases.append(c)
     if tier == 'thorough':
         seen = set()
         for p in small_templates():
@@ -601,9 +611,115 @@ def _run_frac(case):
     return {'after': after, 'fresh': fresh}
 
 
+def _play(loop, out, budget):
+    """sampled play-back (channel A, sample rate 1) as a run-length list [(amplitude fraction string, samples)]"""
+    import numpy as np
+    n = int(loop.repetition_count)
+    if loop.is_leaf():
+        wf = loop.waveform
+        d = int(wf.duration)
+        smp = wf.get_sampled('A', np.arange(d, dtype=float))
+        one = []
+        for v in smp:
+            key = vlib.frac_json(float(v))
+            if one and one[-1][0] == key:
+                one[-1][1] += 1
+            else:
+                one.append([key, 1])
+        body = one
+    else:
+        body = []
+        for c in loop:
+            _play(c, body, budget)
+    for _ in range(n):
+        for key, k in body:
+            if out and out[-1][0] == key:
+                out[-1][1] += k
+            else:
+                out.append([key, k])
+        budget[0] -= 1
+        if budget[0] < 0:
+            raise RuntimeError('play-back too long')
+
+
+def _compat_pipeline(case, vals):
+    from qupulse.program.loop import VolatileModificationWarning, make_compatible
+    from qupulse.utils.types import TimeType
+    pt = build_pt(case['pt'])
+    with warnings.catch_warnings(record=True) as ws:
+        warnings.simplefilter('always')
+        try:
+            prog = pt.create_program(parameters=_named(vals), volatile=set(case['V']))
+            if prog is None:
+                return {'none': True}, None
+            nvol = _n_vol(prog)
+            make_compatible(prog, case['min_len'], 16, TimeType.from_fraction(1, 1))
+        except _expected() + (ValueError,):
+            return {'err': True}, None
+    warn = any(issubclass(w.category, VolatileModificationWarning) for w in ws)
+    return {'ok': True, 'warn': warn, 'nvol_before': nvol, 'nvol_after': _n_vol(prog)}, prog
+
+
+def _has_vol_loop(loop):
+    return loop.volatile_repetition is not None or any(_has_vol_loop(c) for c in loop)
+
+
+def _n_vol(loop):
+    return (1 if loop.volatile_repetition is not None else 0) + sum(_n_vol(c) for c in loop)
+
+
+def _run_compat(case):
+    vals = dict(case['vals'])
+    before, prog = _compat_pipeline(case, vals)
+    steps = []
+    cur = dict(vals)
+    if prog is not None:
+        before['vol_left'] = _has_vol_loop(prog)
+    for us in case['ups']:
+        for k, v in us.items():
+            if k in cur:
+                cur[k] = v
+        if prog is None:
+            break
+        _update_tree(prog, us)
+        f, fprog = _compat_pipeline(case, cur)
+        st = {'fresh': 'ok' if fprog is not None else ('none' if 'none' in f else 'err')}
+        a = []
+        _play(prog, a, [4000])
+        if fprog is not None:
+            b = []
+            _play(fprog, b, [4000])
+            st['same'] = a == b
+            st['fresh_warn'] = f['warn']
+        else:
+            st['silent'] = not a
+        steps.append(st)
+    return {'before': before, 'steps': steps}
+
+
+def py_spec(case, obs):
+    """make_compatible keeps volatility (no VolatileModificationWarning) => the updated program plays what a fresh
+    instantiation + make_compatible with the new values plays"""
+    if case['kind'] != 'compat' or 'before' not in obs:
+        return None
+    b = obs['before']
+    if 'ok' not in b or b['warn']:
+        return None
+    if not set().union(*[set(us) for us in case['ups']]) <= set(case['V']):
+        return None
+    for i, st in enumerate(obs['steps']):
+        if st['fresh'] == 'ok' and not st['fresh_warn'] and not st['same']:
+            return 'make_compatible without VolatileModificationWarning, update %d: updated program plays something else than a fresh instantiation' % i
+        if st['fresh'] == 'none' and not st['silent']:
+            return 'update %d: fresh instantiation is empty, updated program still plays' % i
+    return None
+
+
 def _run(case):
     if case['kind'] == 'frac':
         return _run_frac(case)
+    if case['kind'] == 'compat':
+        return _run_compat(case)
     vals = dict(case['vals'])
     if case['kind'] == 'tree':
         before, prog = _tree_pipeline(case, vals)
@@ -686,6 +802,8 @@ def g_mod(m):
 def to_coq(case, obs):
     if 'crash' in obs or 'hang' in obs:
         return 'CCrash'
+    if case['kind'] == 'compat':
+        return 'CSpecOnly'
     if case['kind'] == 'frac':
         gq = lambda kv: '(%d%%N, %s)' % (NAME_ID[kv[0]], vlib.gQ(vlib.frac_parse(kv[1]) if isinstance(kv[1], str) else kv[1]))
         return '(CFrac %s %s %s %s %s)' % (
@@ -716,6 +834,8 @@ def _has_vol(t):
 def nontrivial(case, obs):
     if case['kind'] == 'frac':
         return 'after' in obs and len(set(obs['after'])) > 0 and any(f == 'nonint' for f in obs['fresh'])
+    if case['kind'] == 'compat':
+        return 'before' in obs and obs['before'].get('vol_left', False) and any(st.get('same') for st in obs['steps'])
     if 'before' not in obs:
         return False
     b = obs['before']
@@ -740,6 +860,14 @@ def histogram_keys(case, obs):
             keys.append('frac:fresh=%s' % (f if isinstance(f, str) else 'count'))
         if 'after' not in obs:
             keys.append('crash')
+        return keys
+    if case['kind'] == 'compat':
+        b = obs.get('before', {})
+        keys.append('compat:min_len=%d' % case['min_len'])
+        keys.append('compat:' + ('err' if 'err' in b else 'none' if 'none' in b else 'warn' if b.get('warn') else
+                                 'volatile_kept' if b.get('vol_left') else 'no_volatile_left'))
+        if nontrivial(case, obs):
+            keys.append('nontrivial')
         return keys
     if case['kind'] == 'tree':
         keys.append('pipeline:' + case['pl'])
@@ -767,6 +895,18 @@ def histogram_keys(case, obs):
 
 def classify(case, obs):
     """id of the known finding a failing case belongs to (precise predicates on the input / recorded call sites)"""
+    if case['kind'] == 'compat':
+        b = obs.get('before', {})
+        # volatile loops vanished into a concatenated waveform and no VolatileModificationWarning was emitted
+        if 'ok' in b and not b['warn'] and b['nvol_after'] < b['nvol_before']:
+            return 'C15-make-compatible-bakes-volatile-child'
+        V = set(case['V'])
+        try:
+            if ref_dropped_volatile(case['pt'], env_fn(dict(case['vals'])), lambda x: x in V):
+                return 'C15-zero-count-dropped'
+        except KeyError:
+            pass
+        return None
     if case['kind'] == 'frac':
         # some cumulative value of the count expression is not an integer
         cur = {k: vlib.frac_parse(str(v)) for k, v in case['vals'].items()}
@@ -812,14 +952,21 @@ MANIFEST = {
     'level_text': 'Proof (Coq, unbounded in template shape, mappings, volatile set and update history) for the model of '
                   'instantiation / update / merge / cleanup on program trees: a count is marked volatile iff it depends '
                   'on a volatile parameter through the enclosing mappings, and updating equals re-instantiating; '
-                  'flatten_and_balance commutes with updates when no volatile loop is unrolled.  Tabor part partial: only '
-                  'shape preservation / soundness of the modification map is proved; "tables after update = fresh '
-                  'compilation, map = exactly the changed entries" is an executable specification checked on every '
-                  'generated case against the real TaborProgram (7 known findings where the unchanged code loses volatility).',
+                  'flatten_and_balance and prepare_program_for_advanced_sequence_mode commute with updates when no '
+                  'VolatileModificationWarning is raised and the compilation of the updated program takes the same '
+                  'decisions.  TaborProgram.update_volatile_parameters: proved in full at the level of table cells '
+                  '(every recorded position holds the new count, nothing else changes, the returned map is exactly the '
+                  'set of changed entries) under the guard that positions sharing a cell agree on the new value '
+                  '(refuted without it: known finding shared table).  Not proved: the parser step of "tables after '
+                  'update = tables of a fresh compilation" (executable specification, checked on every generated '
+                  'Tabor case against the real TaborProgram).  Non-integer values: rational side model, the integer '
+                  'model is proved to be its restriction.  make_compatible: not modelled, Python-side oracle only.',
     'level_note': 'Trusted: Coq kernel, sympy (expression evaluation / structural equality), harness observation of '
-                  'Loop trees and Tabor tables. flatten_and_balance / prepare_program_for_advanced_sequence_mode are '
-                  'modelled and compared by correspondence; prepare_program_for_advanced_sequence_mode has no '
-                  'preservation theorem (known findings list the branches that lose volatility).',
+                  'Loop trees and Tabor tables, exact dyadic floats.  The decision list of prepare/tabor_compile is a '
+                  'ghost output of the model (the code has none); the commutation theorem is conditional on equal '
+                  'decision lists, an input-level sufficient condition is not proved.  5 known findings (zero count '
+                  'dropped, merged negative product, shared volatile table, non-integer update rounds, make_compatible '
+                  'bakes a volatile child) ; 4 Tabor defects repaired in this round.',
     'technique': 'Coq proof over a hand-written model + exact correspondence check against qupulse',
     'design_ref': 'DESIGN.md §5 C15',
 }
